@@ -8,7 +8,7 @@ import Operon.Model.Genome
   new <allow> <cb|none> <rate> <gene>*      gene = name:value:type:required:defaultExpression
   add <id> <gene> · mutate <id> <name> <val> · rollback <id> <name> · expr <id> <name> <lvl> ·
   silence <id> <name> · activate <id> <name> · replicate <id> <inherit> <n:v,…|-> · express <id> <none|-|n,n,…> ·
-  getv <id> <name>
+  getv <id> <name> · validate <id> · list <id> · diff <id> <id> · fromdict <allow> <cb|none> <rate> <n:v,…|->
   Every output line: the observation, then the full state of every genome (genes and expression sorted by
   name, log in order, hash class, parent-hash class).  Hash classes number the distinct canonical lists in
   order of first appearance inside the case. -/
@@ -54,13 +54,18 @@ def genesOf : List String → Option (List (Gene Nat))
 
 def pairsOf (s : String) : Option (List (Nat × Nat)) :=
   if s = "-" then some []
-  else (s.splitOn ",").foldr (fun p acc =>
-    match p.splitOn ":", acc with
-    | [n, v], some l =>
-      match n.toNat?, v.toNat? with
-      | some n, some v => some ((n, v) :: l)
-      | _, _ => none
-    | _, _ => none) (some [])
+  else
+    let r := (s.splitOn ",").foldr (fun p acc =>
+      match p.splitOn ":", acc with
+      | [n, v], some l =>
+        match n.toNat?, v.toNat? with
+        | some n, some v => some ((n, v) :: l)
+        | _, _ => none
+      | _, _ => none) (some [])
+    -- the argument is a Python dict: names are distinct
+    match r with
+    | some l => if (l.map (·.1)).eraseDups.length = l.length then some l else none
+    | none => none
 
 def setOf (s : String) : Option (List (Nat × Option Nat)) :=
   if s = "-" then some []
@@ -93,7 +98,10 @@ def mkEnv (st : DSt) : Env Nat :=
       | some 'x' => .raise
       | _ => if (inSet st.advSet n v) != (c % 2 == 1) then .approve else .refuse
     -- the pinned random pass: int -> same int; code 104 (True) -> 1; code 105 (1.0) -> 1.0; others not numeric
-    rnd := fun _ _ v => if v < 100 then some v else if v = 104 then some 1 else if v = 105 then some 105 else none }
+    rnd := fun _ _ v => if v < 100 then some v else if v = 104 then some 1 else if v = 105 then some 105 else none
+    -- Python `==` on the value table: 1, True (104) and 1.0 (105) are equal; everything else only to itself
+    veq := fun a b => a == b || ((a == 1 || a == 104 || a == 105) && (b == 1 || b == 104 || b == 105))
+    isNone := fun v => v == 101 }
 
 def classOf (seen : List (List (Nat × Nat))) (c : List (Nat × Nat)) : List (List (Nat × Nat)) × Nat :=
   match seen.findIdx? (· == c) with
@@ -127,6 +135,14 @@ def showObs : Obs Nat → String
   | .config c => "cfg " ++ showList ((c.mergeSort (fun a b => a.1 ≤ b.1)).map fun p => s!"{p.1}={p.2}")
   | .value none => "val none"
   | .value (some v) => s!"val {v}"
+  | .invalid [] => "valid"
+  | .invalid l => s!"invalid {l.length}"
+  | .listing l => "list " ++ showList ((l.mergeSort (fun a b => a.1 ≤ b.1)).map fun (n, v, t, lv, r) =>
+      let ls := match lv with | some x => showLevel x | none => "?"
+      s!"{n}={v}:{showGType t}:{ls}:{showBool r}")
+  | .diffs d => "diff " ++ showList ((d.mergeSort (fun a b => a.1 ≤ b.1)).map fun (n, a, b) =>
+      let sh := fun (o : Option Nat) => match o with | some x => toString x | none => "none"
+      s!"{n}:{sh a}/{sh b}")
   | .bad => "bad"
 
 def tagOf (st : DSt) (op : Op Nat) (o : Obs Nat) : String :=
@@ -147,6 +163,11 @@ def tagOf (st : DSt) (op : Op Nat) (o : Obs Nat) : String :=
   | .express .., .config _ => "express"
   | .getValue .., .value none => "getv:none"
   | .getValue .., .value (some _) => "getv:some"
+  | .validate _, .invalid [] => "validate:ok"
+  | .validate _, .invalid _ => "validate:bad"
+  | .listGenes _, .listing _ => "list"
+  | .diff .., .diffs [] => "diff:empty"
+  | .diff .., .diffs _ => "diff:some"
   | _, .bad => "badid"
   | _, _ => "other"
 
@@ -201,6 +222,28 @@ def dstep (st : DSt) (toks : List String) : DSt × String :=
     match i.toNat?, namesOf ctx with
     | some i, some c => exec st (.express i c)
     | _, _ => (st, "bad-op")
+  | ["validate", i] =>
+    match i.toNat? with
+    | some i => exec st (.validate i)
+    | none => (st, "bad-op")
+  | ["list", i] =>
+    match i.toNat? with
+    | some i => exec st (.listGenes i)
+    | none => (st, "bad-op")
+  | ["diff", i, j] =>
+    match i.toNat?, j.toNat? with
+    | some i, some j => exec st (.diff i j)
+    | _, _ => (st, "bad-op")
+  | ["fromdict", allow, cb, rate, cfg] =>
+    -- `Genome.from_dict(config, **kwargs)`: every gene structural, not required, NORMAL
+    match pairsOf cfg with
+    | some ps =>
+      let gs := ps.map fun (n, v) => (⟨n, v, .structural, false, .normal⟩ : Gene Nat)
+      if cb = "none" then exec st (.new (boolOf allow) none (boolOf rate) gs)
+      else match cb.toNat? with
+        | some c => exec st (.new (boolOf allow) (some c) (boolOf rate) gs)
+        | none => (st, "bad-op")
+    | none => (st, "bad-op")
   | ["getv", i, n] =>
     match i.toNat?, n.toNat? with
     | some i, some n => exec st (.getValue i n)
